@@ -199,6 +199,23 @@ def gen_case(rng: random.Random, tier: str) -> dict:
         ]
         at = rng.randrange(len(steps) + 1)
         steps[at:at] = cycle
+    if rng.random() < 0.25:
+        # two pages one of whose paths CONTAINS the other's (log.zo, arc/log.zo, blog.zo): the
+        # longer one breaks and is whitelisted with -f, then the shorter one breaks; the
+        # whitelist is a list of paths, not a text to search (after c08e)
+        short = rng.choice(pages)
+        twin = rng.choice(["arc/" + short, "x" + short, "old/v1/" + short])
+        if twin not in world["files"]:
+            world["files"][twin] = "# Twin page\n\n- twin note one\n- twin note two\n"
+            tail = rng.choice(["stray words without prefix", "O capital", "-no space"])
+            cycle = [
+                {"op": "break_tail", "page": 0, "rel": twin, "text": tail},
+                {"op": "create", "force": True},
+                {"op": "break_tail", "page": 0, "rel": short, "text": tail},
+                rng.choice([{"op": "create"}, {"op": "create"}, {"op": "reindex"}]),
+            ]
+            at = rng.randrange(len(steps) + 1)
+            steps[at:at] = cycle
     steps.append(rng.choice([{"op": "reindex"}, {"op": "create"}, {"op": "create", "force": True}]))
     return {"world": world, "variants": variants, "steps": steps, "day0": core.EPOCH_DAY + rng.randrange(0, 300)}
 
@@ -355,6 +372,8 @@ def execute(case: dict, scratch: str) -> dict:
     for i, st in enumerate(case["steps"]):
         op = st["op"]
         pages = ob.list_pages(sim.zdir)
+        if st.get("rel") in pages:
+            st = dict(st, page=pages.index(st["rel"]))
         if op == "day":
             sim.day += st["days"]
             rec.stat("days", st["days"])
